@@ -1016,6 +1016,12 @@ fn c03_variants(bytes: &[u8]) -> Vec<String> {
                 v.push(format!("corrupt=utf8 idx={} pos={} val={}", si, pos, val));
             }
         }
+        // every (lead, trail) pair of the "twice-encoded" family at the start, in the middle and at the end
+        for pos in [0usize, (a.value.len() - lo) / 2, 1000] {
+            for val in 6..6 + 256 {
+                v.push(format!("corrupt=utf8 idx={} pos={} val={}", si, pos, val));
+            }
+        }
     }
     v
 }
